@@ -42,6 +42,11 @@ TRUSTED_BASE = [
     'theories/Base/PySemPng.v (struct.pack over > B H I L with struct.error as TypeErr, the distinct items of a set (its iteration order is a parameter of the translated function), stable sorted / list.sort by key, dict update, next with StopIteration as AssertErr, any over items that may raise, int // float = CPython float_floor_div with exact fmod on PrimFloat)',
     'gen/translate_vector.py (write_eps / write_pdf / write_tex -> SrcVecCommon.v, SrcVecEps.v, SrcVecPdf.v, SrcVecTex.v; int-or-float numbers with their exact value (py_vnum), the number kinds of utils.matrix_to_lines by abstract interpretation of its current source, nested tuple targets, next(it), stream procedures for partial(fn, f.write), f.tell(), format specs [+]0<w>d, a sum for unrelated branch types; time.strftime / time.timezone / textwrap.wrap / zlib.compress / repr(float) are parameters)',
     'theories/Base/PySemVec.v (py_vnum arithmetic: exact while the binary64 operation does not round; str(float) through the parameter ext_q_repr applied to the reduced fraction; py_lines_tag; format(n, [+]0<w>d); f.tell() = items written by this call)',
+    'gen/translate_seqbody.py (the body of encode_sequence -> SrcSeqBody.v, bytes content; branches decided by the declared types / the narrowing are not translated, closures called with the current value of their free variables, partial(_StructuredAppendInfo, ..) unfolded at its call, an int-or-None argument of a callee translated for ints through py_arg_int)',
+    'theories/Base/PySemSeqBody.v (py_z_or, max(seq, key=len) = first longest item, py_arg_int with the marker for None)',    'gen/translate_svg.py (write_svg with svg_color / matrix_to_lines_verbose and its @colorful wrapper -> SrcSvg.v; dicts keyed by colours incl. defaultdict, a nested generator with a declared item type, try: del d[k] / except KeyError, tuple displays as records, late-bound locals as options; re.sub / repr(float) are parameters, xml.sax.saxutils.escape / quoteattr a fixed semantics under a fingerprint of the library source)',
+    'theories/Base/PySemSvg.v (colour equality as dict key, insertion-ordered dicts keyed by colours, defaultdict reads that store the default, len(set(..)) as the number of distinct items, str.replace, saxutils.escape / quoteattr as successive replaces, ordering of exact-value numbers, the text stream returned together with its encoding)',
+    'gen/translate_api.py (the API layer: keyword entries of the 13 translated serializers generated from their CURRENT signatures and the generated Coq signatures, as_png_data_uri / as_svg_data_uri, writers.save with the serializer call connected, make / make_qr / make_micro / make_sequence, QRCode.__init__ / properties / symbol_size / matrix_iter / save / svg_data_uri / svg_inline / png_data_uri / terminal -> SrcApiUri.v, SrcApiQr.v; values that are only passed on are py_dyn, **kw an association list; tail calls that write to the own out become the returned value; codecs, gzip, urllib quote, the _replace_quotes regex, sys.platform, encode_sequence are parameters)',
+    'theories/Base/PySemApi.v (the Python call protocol for keyword arguments: merge / positional-and-keyword clash / unexpected keyword / defaults / **rest; readings of an arbitrary object at the declared types with the marker outside them; binary streams as the bytes written, text through the codec parameter; base64.b64encode defined per RFC 4648 and checked on CPython examples, with its inverse; `out or sys.stdout`; the record of QRCode.__slots__)',
 ]
 
 
@@ -146,6 +151,24 @@ def build_all(clean=False):
             translator['vector'] = json.loads(r.stdout[r.stdout.index('{'):])
         except Exception:
             translator['vector'] = {'functions': {'*': 'failed: translator crashed'}, 'output': r.stdout[-2000:]}
+        r = run(['/venv/bin/python', os.path.join(VERIF, 'gen', 'translate_seqbody.py'), REPO, os.path.join(BUILD, 'gen')],
+                timeout=300)       # the body of encode_sequence (SrcSeqBody.v; after translate_glue.py: it checks SrcSeq.v ... on disk)
+        try:
+            translator['seqbody'] = json.loads(r.stdout[r.stdout.index('{'):])
+        except Exception:
+            translator['seqbody'] = {'functions': {'*': 'failed: translator crashed'}, 'output': r.stdout[-2000:]}
+        r = run(['/venv/bin/python', os.path.join(VERIF, 'gen', 'translate_svg.py'), REPO, os.path.join(BUILD, 'gen')],
+                timeout=300)       # write_svg and its @colorful wrapper (SrcSvg.v; after translate_colors.py / translate_vector.py: SrcColor.v, SrcVecCommon.v)
+        try:
+            translator['svg'] = json.loads(r.stdout[r.stdout.index('{'):])
+        except Exception:
+            translator['svg'] = {'functions': {'*': 'failed: translator crashed'}, 'output': r.stdout[-2000:]}
+        r = run(['/venv/bin/python', os.path.join(VERIF, 'gen', 'translate_api.py'), REPO, os.path.join(BUILD, 'gen')],
+                timeout=300)       # the API layer: keyword entries of the serializers, data URIs, save with the call connected, make*, QRCode methods (SrcApiUri.v, SrcApiQr.v; after ALL other translate_*.py: it reads their Src*.v)
+        try:
+            translator['api'] = json.loads(r.stdout[r.stdout.index('{'):])
+        except Exception:
+            translator['api'] = {'functions': {'*': 'failed: translator crashed'}, 'output': r.stdout[-2000:]}
         srcs = coq_sources()
         listfile = os.path.join(BUILD, '.filelist')
         old = open(listfile).read() if os.path.exists(listfile) else ''
